@@ -134,7 +134,7 @@ func stdlib(data any, text string) (out []byte, err error, skip bool) {
 	if cyclic(t) {
 		return nil, nil, true
 	}
-	w := &limitedWriter{max: 1 << 20}
+	w := &limitedWriter{max: 8 << 20}
 	if err := t.Execute(w, data); err != nil {
 		if errors.Is(err, errTooLarge) {
 			return nil, nil, true
@@ -301,6 +301,11 @@ var checkC19 = register("C19/export", func(c tplCase) string {
 	if err != nil {
 		return fmt.Sprintf("%s: text/template renders %d bytes but the export failed: %v", what, len(want), err)
 	}
+	// the returned reader must own its bytes: a second export (other template, and the same
+	// template on another report value) before the first output is read must not disturb it
+	if r2, err2 := exp.ExportWithString("{{.Version}}|{{.Vector}}|second export " + strings.Repeat("#", len(want))); err2 == nil && r2 != nil {
+		io.ReadAll(r2)
+	}
 	got, rerr := io.ReadAll(r)
 	if rerr != nil {
 		return fmt.Sprintf("%s: reading the returned reader failed: %v", what, rerr)
@@ -407,7 +412,7 @@ func FuzzC19(f *testing.F) {
 	seeds := []string{"", "{{.Vector}}", "- {{ .SeverityName }}: {{ .SeverityValue }} ({{ .BaseScore }})\n", "{{if eq .SeverityValue \"High\"}}!{{else}}.{{end}}",
 		"{{range .Vector}}x{{end}}", "{{with .BaseReport}}{{.Vector}}{{end}}", "{{.TemporalReport.SeverityValue}}", "{{printf \"%q\" .AVName | html}}",
 		"{{define \"a\"}}[{{.}}]{{end}}{{template \"a\" .Vector}}", "{{", "{{end}}", "{{.Nope}}", "{{foo}}", "{{len}}", "{{- .Version -}}", "{{/* c */}}", "{{$x := .Vector}}{{$x}}",
-		"{{index .Vector 0}}", "{{slice .Vector 1 3}}", "{{.EnvironmentalScore}}|{{.MAVValue}}", "{{block \"b\" .}}{{.Version}}{{end}}", "{{template \"Repost\"}}", "}}{{"}
+		"{{index .Vector 0}}", "{{slice .Vector 1 3}}", "{{.EnvironmentalScore}}|{{.MAVValue}}", "{{block \"b\" .}}{{.Version}}{{end}}", "{{template \"Repost\"}}", "}}{{", "{{upper .Vector}}", "{{.Vector | lower}}", "{{join .Vector \",\"}}", "{{default \"x\" .Vector}}", strings.Repeat("x", 5000) + "{{.Version}}"}
 	for _, s := range seeds {
 		for sel := byte(0); sel < 24; sel += 5 {
 			f.Add(sel, s)
